@@ -3,6 +3,7 @@ import OdakProofs.Lemmas.Kernels
 import OdakModel.Kernels
 import OdakModel.Polar
 import OdakModel.Generated.WaveKernels
+import OdakProofs.Lemmas.GenPolar
 
 /-! # Tie theorems: the kernels and field utilities REGENERATED from the Python source are the hand-written model
 
@@ -12,31 +13,12 @@ import OdakModel.Generated.WaveKernels
   theorems (C01, C02, C03, C04, C06, C09 …) are about.  A sign flip, a changed constant, exchanged axes or a different
   frequency grid in the source changes the generated text and one of these equalities stops compiling.
 
-  * the amplitude/phase utilities and `wavenumber` are equal for EVERY scalar instantiation (`rfl`): in particular the
-    `Float` model that the correspondence check executes is the generated one;
+  * the amplitude/phase utilities and `wavenumber` are in `GenPolar.lean` (equal for EVERY scalar instantiation, `rfl`);
   * the grid kernels are equal at `α = ℝ` (the instantiation the theorems are about): the generated text writes the
     literals `1`, `2` as `Num.ofNat 1`, `Num.ofNat 2` and `(FX * λ)²` where the hand model has `(λ * FX)²`, so the
     proofs normalise numerals and, where needed, ring-normalise. -/
 namespace Odak
 open Gen
-
-/-! ## field utilities and wavenumber: equal over every `[Num α]` -/
-section generic
-variable {α : Type} [Num α]
-
-theorem gen_wavenumberT_eq (lam : α) : wavenumberT lam = wavenumber lam := rfl
-theorem gen_wavenumberN_eq (lam : α) : wavenumberN lam = wavenumber lam := rfl
-theorem gen_calcAmplitudeT_eq (u : Cx α) : calcAmplitudeT u = calcAmplitude u := rfl
-theorem gen_calcAmplitudeN_eq (u : Cx α) : calcAmplitudeN u = calcAmplitude u := rfl
-theorem gen_calcPhaseT_eq (u : Cx α) : calcPhaseT u = calcPhase u := rfl
-theorem gen_calcPhaseN_eq (u : Cx α) : calcPhaseN u = calcPhase u := rfl
-theorem gen_genFieldT_eq (a φ : α) : genFieldT a φ = genField a φ := rfl
-theorem gen_genFieldN_eq (a φ : α) : genFieldN a φ = genField a φ := rfl
-theorem gen_setAmplitudeT_eq (u a : Cx α) : setAmplitudeT u a = setAmplitude u a := rfl
-theorem gen_setAmplitudeN_eq (u a : Cx α) : setAmplitudeN u a = setAmplitude u a := rfl
-theorem gen_addPhaseN_eq (u : Cx α) (φ : α) : addPhaseN u φ = addPhase u φ := rfl
-
-end generic
 
 /-! ## grid kernels at `α = ℝ` -/
 
